@@ -277,14 +277,23 @@ def enum_api(tier):
     for lib in LIBNAMES:
         for first in (0, 1, 2):
             yield dict(lib=lib, first=first)
+    for first in (0, 1, 2):
+        yield dict(lib='custom', first=first)      # a user-defined TechLib whose cell lists its output before its inputs
 
 
 def prop_api(case):
     from kyupy import sdf, techlib
     from kyupy.circuit import Circuit, Node, Line
     lib = case['lib']
-    tlib = getattr(techlib, lib)
-    cell, ipins, opin = LIBS[lib]['cells'][('NAND', 2)]
+    if lib == 'custom':
+        tlib = techlib.TechLib('MYNAND2 output(Y) input(A,B) Y=NAND2(A,B) ;\nMYINV input(A) output(Y) Y=INV1(A) ;\n')
+        cell, ipins, opin = 'MYNAND2', ['A', 'B'], 'Y'
+        if (tlib.pin_index(cell, 'A'), tlib.pin_index(cell, 'B'), tlib.pin_index(cell, 'Y')) != (0, 1, 0):
+            raise Violation(f'custom library: pins A, B, Y of "MYNAND2 output(Y) input(A,B)" have positions '
+                            f'{(tlib.pin_index(cell, "A"), tlib.pin_index(cell, "B"), tlib.pin_index(cell, "Y"))}, inputs and outputs are each numbered from 0 in declaration order')
+    else:
+        tlib = getattr(techlib, lib)
+        cell, ipins, opin = LIBS[lib]['cells'][('NAND', 2)]
     c = Circuit('top')
     a, b_, z = Node(c, 'a', 'input'), Node(c, 'b', 'input'), Node(c, 'z', 'output')
     fa, fb, fz = Node(c, 'a'), Node(c, 'b'), Node(c, 'z')
